@@ -35,11 +35,15 @@ def parse_out(o):
         try: return int(t)
         except ValueError: return None
     return None
+AFTER = ["sin", "cos", "tan", "atan", "sqrt", "asin", "acos", "ceil", "floor", "sqrt_aprox", "atan_index", "atan_aprox", "neg", "abs"]
 def parse_line(line):
     p = line.split()
     h = p[0].split(":")
     tag = h[1] if len(h) > 1 else ""
     fn, a = h[0], [int(x) for x in p[1:]]
+    if fn == "after" and len(a) == 4 and 0 <= a[0] < len(AFTER) and 0 <= a[1] < len(AFTER):
+        fn, a = AFTER[a[1]], [a[3]]                    # the second call is the one reported
+        if fn not in ("sqrt", "asin", "acos"): tag = ""
     if fn.startswith("lit_"):
         fn = fn[4:]
         if fn == "hypot1": fn, a = "hypot", [a[0], 65536]
